@@ -222,13 +222,15 @@ def resolve_unwindset(h, workdir):
     return pairs, used
 
 
-def run_harness(h, workdir, tier, logdir):
+def run_harness(h, workdir, tier, logdir, playback=False):
     timeout = h.timeout or (600 if tier == "quick" else 3600)
     mem_gb = h.mem_gb or (12 if tier == "quick" else 24)
     cmd = kani_base_cmd() + ["--harness", h.path, "--exact"]
     if h.feature:
         cmd += ["--features", h.feature]
-    if h.playback == "on":
+    # concrete playback makes CBMC keep full traces (several harnesses ran out of 24 GB with it and pass in 2 min
+    # without): the first pass runs without it, a failing harness is re-run with it to extract the counterexample
+    if playback:
         cmd += ["-Z", "concrete-playback", "--concrete-playback=print"]
     extra = []
     if h.unwindset:
@@ -240,7 +242,7 @@ def run_harness(h, workdir, tier, logdir):
             h.unwindset_problem = f"unwindset pattern(s) matched no loop: {used}"
     if extra:
         cmd += ["--cbmc-args"] + extra
-    logf = os.path.join(logdir, h.name + ".log")
+    logf = os.path.join(logdir, h.name + (".playback" if playback else "") + ".log")
     sh = f"ulimit -v {mem_gb * 1024 * 1024}; exec timeout -k 10 {timeout} " + " ".join(
         "'" + c.replace("'", "'\\''") + "'" for c in cmd)
     t0 = time.time()
@@ -257,7 +259,9 @@ def run_harness(h, workdir, tier, logdir):
         or ("ran out of memory" in out)
     r.n_error_status = len(re.findall(r"- Status: ERROR", out))
     r.error = None
-    if r.timeout_hit:
+    if getattr(h, "unwindset_problem", None):
+        r.error = h.unwindset_problem
+    elif r.timeout_hit:
         r.error = f"timeout after {timeout}s"
     elif r.verdict is None:
         r.error = "no verdict (rc=%d%s)" % (p.returncode, ", out of memory" if r.oom else "")
@@ -378,6 +382,9 @@ def check_kani(prop, tier, seed, only=None, jobs=None, extra_results=None):
         return 2, {}
     log(f"[{prop}] built harness crate in {bt:.0f}s; running {len(hs)} harness(es), tier={tier}")
     jobs = jobs or int(os.environ.get("VERIF_JOBS", "5" if tier == "quick" else "5"))
+    # memory is the limit (R7): never start more solver processes than fit into ~56 GB of address-space limits
+    max_mem = max([(h.mem_gb or (12 if tier == "quick" else 24)) for h in hs])
+    jobs = max(1, min(jobs, 56 // max_mem))
     results = {}
     with ThreadPoolExecutor(max_workers=jobs) as ex:
         futs = {ex.submit(run_harness, h, workdir, tier, logdir): h for h in hs}
@@ -435,8 +442,14 @@ def check_kani(prop, tier, seed, only=None, jobs=None, extra_results=None):
             real_failed = unwind_fail
         if not real_failed:
             continue
-        # ---- counterexample: replay natively before reporting
+        # ---- counterexample: extract it (second run with concrete playback), replay natively before reporting
         descs = sorted({c["desc"] for c in real_failed})
+        extraction = ""
+        if h.replay == "native" and not r.playback:
+            r2 = run_harness(h, workdir, tier, logdir, playback=True)
+            r.playback = r2.playback
+            if not r2.playback:
+                extraction = "counterexample extraction failed (%s)" % (r2.error or "no playback test printed")
         pb = [p for p in r.playback if p["kind"] != "cover" and any(d.strip('"') in p["desc"] or p["desc"].strip('"') in d for d in descs)]
         if not pb:
             pb = [p for p in r.playback if p["kind"] != "cover"]
@@ -464,6 +477,8 @@ def check_kani(prop, tier, seed, only=None, jobs=None, extra_results=None):
             violations.append((h, real_failed, rp, "reproduced natively"))
         elif h.replay == "none" and not is_unwind_only:
             violations.append((h, real_failed, rp, "solver counterexample under the harness's environment stubs (native replay not meaningful)"))
+        elif extraction and not is_unwind_only:
+            violations.append((h, real_failed, rp, "decided by the solver; " + extraction + ", so no native replay"))
         elif memsafe and not is_unwind_only:
             violations.append((h, real_failed, rp, "memory-safety class (ub-only: CBMC pointer check; native run need not crash)"))
         else:
